@@ -528,3 +528,30 @@ def mc(ctx):
 
 
 RULES.append(mc)
+
+
+@rule("W7", doc="when a class shrinks, the slot set it stores and the slot set its own union-find entry (the redundancy witness) is restricted to are computed from the same ingredients: both from the requested set alone, or both through the symmetry orbits")
+def w7(ctx):
+    crate = ctx.lib()
+    ufs = set(C.uf_setters(crate))
+    reach_uf = {b.id for b in crate.fns() if ufs & crate.reachable_from([b.id], resolve_traits=False)}
+    n = 0
+    for wid in C.need("slot-set writer (shrink_slots)", C.slot_writers(crate)):
+        b = mir.inline_view(crate, crate.bodies[wid], keep=tuple(C.short(x).split("::")[-1] for x in reach_uf))
+        stores = [(bi, s) for bi, si, s in b.statements() if s["k"] == "assign" and mir.place_has_field(s["lhs"], C.ECLASS, "slots")]
+        wit = [c for c in b.calls if c.callee and c.callee.target in reach_uf and not b.blocks[c.bb]["cleanup"]
+               and any("SmallHashSet<slot::Slot" in b.local_ty((mir.op_place(a) or {"l": 0})["l"]) or "VecSet" in b.local_ty((mir.op_place(a) or {"l": 0})["l"]) for a in c.args[1:])]
+        if not stores or not wit:
+            continue
+        n += 1
+        st_orbit = any(role_mentions_call(b.role_of_rvalue(s["rv"]), "orbit") for _, s in stores)
+        for c in wit:
+            sets = [a for a in c.args[1:] if "Slot" in b.local_ty((mir.op_place(a) or {"l": 0})["l"]) and ("HashSet" in b.local_ty((mir.op_place(a) or {"l": 0})["l"]) or "VecSet" in b.local_ty((mir.op_place(a) or {"l": 0})["l"]))]
+            w_orbit = any(role_mentions_call(b.role_of_operand(a), "orbit") for a in sets)
+            ctx.check(st_orbit == w_orbit, "stored-slots-agree-with-witness:" + C.fkey(crate.bodies[wid]), "%s stores the slot set the redundancy witness was recorded for" % C.short(wid),
+                      "%s stores a slot set that %s closed under the group's orbits, but records the class's own union-find entry for a set that %s: the class says its slots are one set and its union-find entry another — handles canonicalised through it carry surplus arguments, check() fails, and ill-formed invocations get into e-nodes" % (C.short(wid), "is" if st_orbit else "is not", "is" if w_orbit else "is not"),
+                      where_of(b, c.bb))
+    ctx.floor("slot-set writers that record a redundancy witness", n, 1)
+
+
+RULES.append(w7)
